@@ -5,7 +5,7 @@
    (PotentialThms.unc_ok: the floor-free case).  phi s t = ncancel t - sum of _pending_uncancellations of the
    scopes hosted by t. *)
 From Coq Require Import ZArith.
-From AV Require Import Base Machine ScopeFrames DeliverInv TreeInv DeliverAlive PotentialInv TreeStep PotentialThms.
+From AV Require Import Base Machine ScopeFrames DeliverInv TreeInv DeliverAlive PotentialInv TreeStep KernelInv DeliverThms PotentialThms.
 
 (* the three RuntimeError guards of __exit__: otherwise nothing changes *)
 Theorem C05_scope_exit_guarded : forall s c t exc,
@@ -94,3 +94,11 @@ Theorem C05_leftover_deliver_runs_once : forall s c,
   (forall x, x <> c -> scopes s' x = scopes s x).
 Proof. exact leftover_deliver_runs_once. Qed.
 Print Assumptions C05_leftover_deliver_runs_once.
+
+(* loop_goes_idle, partial: when all tasks are done a delivery callback that runs does not keep itself alive
+   (the bound on the remaining callbacks and the timer clause are not proved) *)
+Theorem C05_loop_goes_idle_partial : forall s c,
+  reach_ok s -> (forall t, k_done (tasks s t) <> None) -> In (HDeliver c) (ready s) ->
+  s_chandle (scopes (fst (step s (ARun (HDeliver c)))) c) = false.
+Proof. exact loop_goes_idle_partial. Qed.
+Print Assumptions C05_loop_goes_idle_partial.
